@@ -267,8 +267,12 @@ func projTx(t *gobinlog.Transaction) M {
 		for _, r := range e.RowIdentifies {
 			ids = append(ids, projRow(r))
 		}
+		cs := []int{}
+		if c := e.Query.Charset; c != nil {
+			cs = []int{int(c.Client), int(c.Conn), int(c.Server)}
+		}
 		evs = append(evs, M{"typ": B(e.Type.String()), "db": B(e.Table.DbName), "tbl": B(e.Table.TableName),
-			"sql": B(e.Query.SQL), "qdb": B(e.Query.Database), "ts": strconv.FormatInt(e.Timestamp, 10), "vals": vals, "ids": ids})
+			"sql": B(e.Query.SQL), "qdb": B(e.Query.Database), "cs": cs, "ts": strconv.FormatInt(e.Timestamp, 10), "vals": vals, "ids": ids})
 	}
 	return M{"now": posJ(t.NowPosition), "next": posJ(t.NextPosition), "ts": strconv.FormatInt(t.Timestamp, 10), "evs": evs}
 }
@@ -489,13 +493,20 @@ func tableJ(t *Table) M {
 	return M{"id": strconv.FormatUint(t.ID, 10), "db": B(t.DB), "name": B(t.Name), "cols": cols}
 }
 
+func intsJ(x []int) []int {
+	if x == nil {
+		return []int{}
+	}
+	return x
+}
+
 func evJ(e *Ev, withBytes bool) M {
 	rows := []M{}
 	for _, r := range e.Rows {
 		rows = append(rows, M{"b": cellsJ(r.B, e.Tbl), "a": cellsJ(r.A, e.Tbl)})
 	}
 	m := M{"k": e.K, "ts": u32s(e.TS), "start": u32s(e.Start), "end": u32s(e.End), "fake": e.Fake,
-		"cat": orNone(e.Cat), "sql": B(e.SQL), "db": B(e.DB), "tbl": tableJ(e.Tbl), "rows": rows,
+		"cat": orNone(e.Cat), "sql": B(e.SQL), "db": B(e.DB), "cs": intsJ(e.CS), "tbl": tableJ(e.Tbl), "rows": rows,
 		"rotfile": B(e.RotFile), "rotpos": strconv.FormatUint(e.RotPos, 10), "code": int(e.Code), "len": len(e.Bytes)}
 	if withBytes {
 		m["bytes"] = B(e.Bytes)
@@ -563,13 +574,17 @@ func errJ(err error) M {
 	return M{"nil": false, "text": B(err.Error())}
 }
 
+// scribbleTx overwrites every delivered value, each with a pattern of its own (a function of where the value sits in the
+// transaction: event j, row r, column c, after / before image), so that two values sharing storage cannot both end up with
+// the bytes they are expected to hold (spec: ScribbledEvs).
 func scribbleTx(t *gobinlog.Transaction, pat byte) {
-	for _, e := range t.Events {
-		for _, rows := range [][]*gobinlog.RowData{e.RowValues, e.RowIdentifies} {
-			for _, r := range rows {
-				for _, c := range r.Columns {
-					for i := range c.Data {
-						c.Data[i] = pat
+	for j, e := range t.Events {
+		for side, rows := range [][]*gobinlog.RowData{e.RowValues, e.RowIdentifies} {
+			for r, row := range rows {
+				for c, col := range row.Columns {
+					p := byte(int(pat) + 7*j + 3*r + c + 50*side)
+					for i := range col.Data {
+						col.Data[i] = p
 					}
 				}
 			}
